@@ -184,12 +184,12 @@ Proof. apply hd_state_digit. Qed.
 Theorem decode_nonleaf (n e : nat) K : (e + S n = 30)%nat ->
   let c := (2 * K + 1) * 4 ^ Z.of_nat (S e) in
   let '(ci, cj, co) := cell_state n K in
-  s2_CellID_faceIJOrientation c =
+  hd_faceIJOrientation c =
     (Z.shiftr c 61, (2 * ci + 1) * 2 ^ Z.of_nat e - co / 2, (2 * cj + 1) * 2 ^ Z.of_nat e - co / 2, co).
 Proof.
   intros Hn c. pose proof (hd_state_ok n K) as Hok. unfold cell_state.
   destruct (hd_state n K) as [[ci cj] co] eqn:ES. destruct Hok as (Hci & Hcj & Hco).
-  unfold s2_CellID_faceIJOrientation. subst c.
+  unfold hd_faceIJOrientation. subst c.
   rewrite shiftr1_struct, lsb_struct.
   replace 30%nat with (e + S n)%nat by lia.
   rewrite hd_state_zeros.
@@ -205,9 +205,9 @@ Qed.
 Theorem decode_leaf K :
   let c := (2 * K + 1) * 4 ^ Z.of_nat 0 in
   let '(ci, cj, co) := cell_state 30 K in
-  s2_CellID_faceIJOrientation c = (Z.shiftr c 61, ci, cj, co).
+  hd_faceIJOrientation c = (Z.shiftr c 61, ci, cj, co).
 Proof.
   intros c. unfold cell_state. destruct (hd_state 30 K) as [[ci cj] co] eqn:ES.
-  unfold s2_CellID_faceIJOrientation. subst c.
+  unfold hd_faceIJOrientation. subst c.
   rewrite shiftr1_leaf, ES. rewrite (lsb_struct 0). reflexivity.
 Qed.
